@@ -7,7 +7,7 @@ Local Open Scope N_scope.
 
 Definition CInv (c : comp) (L : ledger) : Prop :=
   L = [(c_blk c, mkblk true (c_cap c) (c_begin c) (c_begin c + c_num c))] /\ c_num c <= c_cap c /\ c_blk c < c_nxt c /\
-  1 <= c_sec c /\ 1 <= c_nsec c.
+  4 <= c_sec c /\ 1 <= c_nsec c.
 
 Opaque init_cap trailing_ones.
 Ltac rsplit := repeat match goal with |- _ /\ _ => split end.
@@ -26,7 +26,7 @@ Proof. intros H. unfold judgeq. now rewrite H. Qed.
 Lemma begin_end c : c_num c <= c_cap c -> c_begin c + c_num c <= c_cap c.
 Proof. unfold c_begin. destruct (c_hra c); cbn; lia. Qed.
 
-Lemma new_comp_ok X hra k c e : 1 <= k -> new_comp hra k = (c, e) -> exists L, apply_all X [] e = Some L /\ CInv c L.
+Lemma new_comp_ok X hra k c e : 4 <= k -> new_comp hra k = (c, e) -> exists L, apply_all X [] e = Some L /\ CInv c L.
 Proof.
   intros Hk. unfold new_comp. cbv zeta. intros E; injection E as <- <-. cbn [apply_all]. rewrite alloc0.
   eexists. split; [reflexivity|]. unfold CInv, c_begin. csimpl. destruct hra.
@@ -49,7 +49,7 @@ Proof.
   eexists. split; [reflexivity|]. unfold CInv, c'. csimpl. rsplit; auto; try reflexivity; try lia.
 Qed.
 
-Lemma nom_pos c : 1 <= c_sec c -> 1 <= c_nsec c -> 1 <= nom_capacity c.
+Lemma nom_pos c : 4 <= c_sec c -> 1 <= c_nsec c -> 1 <= nom_capacity c.
 Proof. unfold nom_capacity. nia. Qed.
 
 Lemma comp_append_ok X c L c' e : CInv c L -> comp_append c = (c', e) ->
@@ -247,9 +247,9 @@ Qed.
 
 (* ---- the sketch ---- *)
 Definition QInv (s : req) : Prop :=
-  1 <= q_k s /\ Forall (fun p => CInv (fst p) (snd p) /\ c_hra (fst p) = q_hra s) (q_comps s).
+  4 <= q_k s /\ Forall (fun p => CInv (fst p) (snd p) /\ c_hra (fst p) = q_hra s) (q_comps s).
 
-Lemma push_comp_ok s cs cs' b : 1 <= q_k s -> Forall (fun p => CInv (fst p) (snd p) /\ c_hra (fst p) = q_hra s) cs ->
+Lemma push_comp_ok s cs cs' b : 4 <= q_k s -> Forall (fun p => CInv (fst p) (snd p) /\ c_hra (fst p) = q_hra s) cs ->
   push_comp s cs = (cs', b) -> Forall (fun p => CInv (fst p) (snd p) /\ c_hra (fst p) = q_hra s) cs' /\ b = false.
 Proof.
   intros Hk HF. unfold push_comp. destruct (new_comp (q_hra s) (q_k s)) as [c e] eqn:E.
@@ -258,7 +258,7 @@ Proof.
   csimpl. split; auto. unfold new_comp in E. injection E as <- _. reflexivity.
 Qed.
 
-Lemma compress_loop_ok s : 1 <= q_k s -> forall fuel done rest ret mx bad cs ret' mx' bad',
+Lemma compress_loop_ok s : 4 <= q_k s -> forall fuel done rest ret mx bad cs ret' mx' bad',
   Forall (fun p => CInv (fst p) (snd p) /\ c_hra (fst p) = q_hra s) done ->
   Forall (fun p => CInv (fst p) (snd p) /\ c_hra (fst p) = q_hra s) rest ->
   compress_loop fuel s done rest ret mx bad = Some (cs, ret', mx', bad') ->
@@ -308,7 +308,7 @@ Proof.
   - intros E; injection E as <- <-. split; auto. split; auto.
 Qed.
 
-Lemma grow_to_ok s : 1 <= q_k s -> forall fuel cs n bad cs' bad',
+Lemma grow_to_ok s : 4 <= q_k s -> forall fuel cs n bad cs' bad',
   Forall (fun p => CInv (fst p) (snd p) /\ c_hra (fst p) = q_hra s) cs -> grow_to fuel s cs n bad = (cs', bad') ->
   Forall (fun p => CInv (fst p) (snd p) /\ c_hra (fst p) = q_hra s) cs' /\ bad' = bad.
 Proof.
@@ -374,7 +374,7 @@ Proof.
   rewrite (judgeq_ok _ _ _ _ (comp_destroy_ok [] c L HI)). cbn [orb]. exact IH.
 Qed.
 
-Lemma new_req_ok k hra tab s bad : 1 <= k -> new_req k hra tab = (s, bad) -> QInv s /\ bad = false.
+Lemma new_req_ok k hra tab s bad : 4 <= k -> new_req k hra tab = (s, bad) -> QInv s /\ bad = false.
 Proof.
   intros Hk. unfold new_req. destruct (new_comp hra k) as [c e] eqn:E.
   destruct (new_comp_ok [] _ _ c e Hk E) as (L & HL & HI). rewrite (judgeq_ok _ _ _ _ HL).
@@ -405,3 +405,156 @@ Qed.
 
 Lemma req_destroy_moved_from s : req_destroy (req_moved_from s) = false.
 Proof. reflexivity. Qed.
+
+(* ---- the guards of the model never fire on reachable states ---- *)
+Lemma half_nom c : nom_capacity c / 2 = c_nsec c * c_sec c.
+Proof. unfold nom_capacity. replace (2 * c_nsec c * c_sec c) with (c_nsec c * c_sec c * 2) by lia. apply N.div_mul. lia. Qed.
+
+Lemma comp_compact_total tab c nx Lc : CInv c Lc -> nom_capacity c <= c_num c -> comp_compact tab c nx <> None.
+Proof.
+  intros (_ & Hn & _ & Hs & Hns) Hfull. unfold comp_compact. cbv zeta.
+  destruct (compaction_range c) as [low high] eqn:ER.
+  assert (Hr : 2 <= high - low /\ high <= c_num c /\ low <= high).
+  { unfold compaction_range in ER. cbv zeta in ER. rewrite half_nom in ER.
+    set (secs := N.min (trailing_ones 64 (c_state c) + 1) (c_nsec c)) in ER.
+    assert (Hsecs : 1 <= secs /\ secs <= c_nsec c) by (unfold secs; lia).
+    set (nc0 := c_nsec c * c_sec c + (c_nsec c - secs) * c_sec c) in ER.
+    assert (Hnc0 : nc0 + c_sec c <= nom_capacity c) by (unfold nc0, nom_capacity; nia).
+    set (nc := if N.odd (c_num c - nc0) then nc0 + 1 else nc0) in ER.
+    assert (Hnc : nc + 3 <= c_num c) by (unfold nc; destruct (N.odd (c_num c - nc0)); lia).
+    destruct (c_hra c); injection ER as <- <-; lia. }
+  destruct Hr as (H1 & H2 & H3).
+  replace ((high - low <? 2) || (c_num c <? high) || (high <? low)) with false.
+  2:{ symmetry. apply orb_false_intro; [apply orb_false_intro|]; apply N.ltb_ge; lia. }
+  destruct (comp_ensure_space nx ((high - low) / 2)) as [n1 en1].
+  destruct (comp_ensure_sections tab _) as [[c2 ec2] ag]. discriminate.
+Qed.
+
+Lemma compress_loop_total s : 4 <= q_k s -> forall fuel done rest ret mx bad,
+  Forall (fun p => CInv (fst p) (snd p) /\ c_hra (fst p) = q_hra s) done ->
+  Forall (fun p => CInv (fst p) (snd p) /\ c_hra (fst p) = q_hra s) rest ->
+  compress_loop fuel s done rest ret mx bad <> None.
+Proof.
+  intros Hk. induction fuel as [|f IH]; intros done rest ret mx bad HD HR; cbn [compress_loop]; [discriminate|].
+  destruct rest as [|[c L] t]; [discriminate|].
+  inversion HR as [|? ? [HIc Hhc] HRt]; subst. cbn [fst snd] in HIc, Hhc.
+  destruct (N.leb_spec (nom_capacity c) (c_num c)) as [Hfull|].
+  - assert (Htop : exists nx LN t2 mx1 bad1, (match t with
+                | [] => let '(t', b') := push_comp s [] in (t', sum_nom (done ++ (c, L) :: t'), bad || b')
+                | _ :: _ => (t, mx, bad) end) = ((nx, LN) :: t2, mx1, bad1) /\
+                Forall (fun p => CInv (fst p) (snd p) /\ c_hra (fst p) = q_hra s) ((nx, LN) :: t2)).
+    { destruct t as [|[nx LN] t2].
+      - destruct (push_comp s []) as [t' b'] eqn:EP. destruct (push_comp_ok s [] t' b' Hk (Forall_nil _) EP) as [F ->].
+        unfold push_comp in EP. destruct (new_comp (q_hra s) (q_k s)) as [c0 e0]. destruct (judgeq [] [] e0) as [L0 b0].
+        injection EP as <- _. cbn [app] in *. eexists _, _, _, _, _. split; [reflexivity|exact F].
+      - eexists _, _, _, _, _. split; [reflexivity|exact HRt]. }
+    destruct Htop as (nx & LN & t2 & mx1 & bad1 & -> & HF1).
+    inversion HF1 as [|? ? [HIn Hhn] HF2]; subst. cbn [fst snd] in HIn, Hhn.
+    destruct (comp_compact (q_tab s) c nx) as [[[[[[c' ec] nx'] en] num] dnom]|] eqn:EC.
+    2:{ exfalso. exact (comp_compact_total _ c nx L HIc Hfull EC). }
+    destruct (comp_compact_ok _ c L nx LN c' ec nx' en num dnom HIc HIn ltac:(congruence) EC)
+      as ((Ln' & A1 & A2) & (Lc' & B1 & B2) & C1 & C2).
+    rewrite (judgeq_ok _ _ _ _ A1), (judgeq_ok _ _ _ _ B1).
+    apply IH.
+    + apply Forall_app. split; auto. constructor; [|constructor]. cbn [fst snd]. split; auto. congruence.
+    + constructor; auto. cbn [fst snd]. split; auto. congruence.
+  - apply IH; auto. apply Forall_app. split; auto.
+Qed.
+
+(* update never escapes with an exception on a sketch that holds its compactors *)
+Lemma req_update_total s : QInv s -> q_comps s <> [] -> req_update s <> None.
+Proof.
+  intros [Hk HF] Hne. unfold req_update. destruct (q_comps s) as [|[c0 L0] t] eqn:Hc; [congruence|].
+  inversion HF as [|? ? [HI0 Hh0] HFt]; subst. cbn [fst snd] in HI0, Hh0.
+  destruct (comp_append c0) as [c1 e1] eqn:EA.
+  destruct (comp_append_ok [] c0 L0 c1 e1 HI0 EA) as (L1 & H1 & HI1 & Hn).
+  rewrite (judgeq_ok _ _ _ _ H1).
+  assert (Hh1 : c_hra c1 = q_hra s).
+  { unfold comp_append in EA. destruct (c_num c0 =? c_cap c0); [unfold comp_grow in EA; cbv zeta in EA|]; injection EA as <- _; cbn [c_hra mkc]; auto. }
+  assert (HF1 : Forall (fun p => CInv (fst p) (snd p) /\ c_hra (fst p) = q_hra s) ((c1, L1) :: t)) by (constructor; auto).
+  destruct (q_retained s + 1 =? q_maxnom s); [|discriminate].
+  unfold req_compress. pose proof (compress_loop_total s Hk (length ((c1, L1) :: t) + 70) [] _ (q_retained s + 1) (q_maxnom s) false (Forall_nil _) HF1) as HT.
+  destruct (compress_loop _ s [] _ _ _ false) as [[[[cs' r'] m'] b']|]; [discriminate|congruence].
+Qed.
+
+(* merge: the only refusal is the HRA/LRA mismatch (invalid_argument before anything is touched) *)
+Lemma req_merge_total s o : QInv s -> QInv o -> q_hra s = q_hra o -> req_merge s o <> None.
+Proof.
+  intros [Hk HF] [Hko HFo] Hh. unfold req_merge. rewrite Hh, Bool.eqb_reflx. cbn [negb].
+  destruct (q_n o =? 0); [discriminate|].
+  destruct (grow_to _ s (q_comps s) _ false) as [cs1 b1] eqn:EG.
+  destruct (grow_to_ok s Hk _ _ _ _ _ _ HF EG) as [F1 ->].
+  destruct (merge_comps (q_tab s) cs1 (q_comps o) false) as [cs2 b2] eqn:EM.
+  rewrite <- Hh in HFo.
+  destruct (merge_comps_ok _ (q_hra s) _ _ _ _ _ F1 HFo EM) as [F2 ->].
+  destruct (sum_nom cs2 <=? sum_num cs2); [|discriminate].
+  unfold req_compress. pose proof (compress_loop_total s Hk (length cs2 + 70) [] cs2 (sum_num cs2) (sum_nom cs2) false (Forall_nil _) F2) as HT.
+  destruct (compress_loop _ s [] cs2 _ _ false) as [[[[cs' r'] m'] b']|]; [discriminate|congruence].
+Qed.
+
+(* compactors are never lost: a sketch created by the constructor keeps at least one *)
+Lemma compress_loop_len s : forall fuel done rest ret mx bad cs ret' mx' bad',
+  compress_loop fuel s done rest ret mx bad = Some (cs, ret', mx', bad') -> (length done + length rest <= length cs)%nat.
+Proof.
+  induction fuel as [|f IH]; intros done rest ret mx bad cs ret' mx' bad'; cbn [compress_loop].
+  - intros E; injection E as <- _ _ _. rewrite app_length. lia.
+  - destruct rest as [|[c L] t]. { intros E; injection E as <- _ _ _. simpl. lia. }
+    destruct (nom_capacity c <=? c_num c).
+    + destruct t as [|[nx LN] t2].
+      * destruct (push_comp s []) as [t' b']. destruct t' as [|[nx LN] t2]; [discriminate|].
+        destruct (comp_compact (q_tab s) c nx) as [[[[[[c' ec] nx'] en] num] dnom]|]; [|discriminate].
+        destruct (judgeq L LN en), (judgeq [] L ec). intros E. apply IH in E. rewrite app_length in E. simpl in *. lia.
+      * destruct (comp_compact (q_tab s) c nx) as [[[[[[c' ec] nx'] en] num] dnom]|]; [|discriminate].
+        destruct (judgeq L LN en), (judgeq [] L ec). intros E. apply IH in E. rewrite app_length in E. simpl in *. lia.
+    + intros E. apply IH in E. rewrite app_length in E. simpl in *. lia.
+Qed.
+
+Lemma grow_to_len s : forall fuel cs n bad cs' bad', grow_to fuel s cs n bad = (cs', bad') -> (length cs <= length cs')%nat.
+Proof.
+  induction fuel as [|f IH]; intros cs n bad cs' bad'; cbn [grow_to].
+  - intros E; injection E as <- _. lia.
+  - destruct (length cs <? n)%nat; [|intros E; injection E as <- _; lia].
+    unfold push_comp. destruct (new_comp (q_hra s) (q_k s)) as [c e]. destruct (judgeq [] [] e) as [L b].
+    intros E. apply IH in E. rewrite app_length in E. simpl in E. lia.
+Qed.
+
+Lemma merge_comps_len tab : forall cs os bad cs' bad', merge_comps tab cs os bad = (cs', bad') -> length cs' = length cs.
+Proof.
+  induction cs as [|[c L] t IH]; intros os bad cs' bad'; cbn [merge_comps].
+  - intros E; injection E as <- _. reflexivity.
+  - destruct os as [|[o LO] ot]. { intros E; injection E as <- _. reflexivity. }
+    destruct (comp_merge tab c o) as [c' e]. destruct (judgeq LO L e) as [L' b].
+    destruct (merge_comps tab t ot (bad || b)) as [t' b'] eqn:ER. intros E; injection E as <- _. simpl. f_equal. eapply IH; eauto.
+Qed.
+
+Lemma req_update_nonempty s s' bad : req_update s = Some (s', bad) -> q_comps s' <> [].
+Proof.
+  unfold req_update. destruct (q_comps s) as [|[c0 L0] t]; [discriminate|].
+  destruct (comp_append c0) as [c1 e1]. destruct (judgeq [] L0 e1) as [L1 b1].
+  destruct (q_retained s + 1 =? q_maxnom s).
+  - unfold req_compress. destruct (compress_loop _ s [] _ _ _ b1) as [[[[cs' r'] m'] b']|] eqn:EC; [|discriminate].
+    apply compress_loop_len in EC. intros E; injection E as <- _. cbn [q_comps with_comps]. destruct cs'; [simpl in EC; lia|discriminate].
+  - intros E; injection E as <- _. cbn [q_comps with_comps]. discriminate.
+Qed.
+
+Lemma req_merge_nonempty s o s' bad : q_comps s <> [] -> req_merge s o = Some (s', bad) -> q_comps s' <> [].
+Proof.
+  intros Hne. unfold req_merge. destruct (negb (Bool.eqb (q_hra s) (q_hra o))); [discriminate|].
+  destruct (q_n o =? 0). { intros E; injection E as <- _. exact Hne. }
+  destruct (grow_to _ s (q_comps s) _ false) as [cs1 b1] eqn:EG. apply grow_to_len in EG.
+  destruct (merge_comps (q_tab s) cs1 (q_comps o) b1) as [cs2 b2] eqn:EM. apply merge_comps_len in EM.
+  assert (Hl : (1 <= length cs2)%nat) by (destruct (q_comps s); [congruence|simpl in EG; lia]).
+  destruct (sum_nom cs2 <=? sum_num cs2).
+  - unfold req_compress. destruct (compress_loop _ s [] cs2 _ _ b2) as [[[[cs' r'] m'] b']|] eqn:EC; [|discriminate].
+    apply compress_loop_len in EC. intros E; injection E as <- _. cbn [q_comps with_comps]. destruct cs'; [simpl in EC; lia|discriminate].
+  - intros E; injection E as <- _. cbn [q_comps with_comps]. destruct cs2; [simpl in Hl; lia|discriminate].
+Qed.
+
+Lemma req_copy_nonempty o s' bad : q_comps o <> [] -> req_copy o = (s', bad) -> q_comps s' <> [].
+Proof.
+  intros Hne. unfold req_copy. intros E; injection E as <- _. cbn [q_comps with_comps].
+  destruct (q_comps o); [congruence|]. simpl. discriminate.
+Qed.
+
+Lemma new_req_nonempty k hra tab s bad : new_req k hra tab = (s, bad) -> q_comps s <> [].
+Proof. unfold new_req. destruct (new_comp hra k) as [c e]. destruct (judgeq [] [] e). intros E; injection E as <- _. simpl. discriminate. Qed.
